@@ -570,7 +570,8 @@ pub fn process<I: BufRead, O: Write>(
                     if caps.get(2).is_none() {
                         context.define(mcro, value);
                     } else {
-                        let mut rex = format!("\\b{}\\(", mcro);
+                        // (blanks are allowed between the name of a macro and the parenthesis of its call)
+                        let mut rex = format!("\\b{}\\s*\\(", mcro);
                         let params = caps.get(2).unwrap().as_str();
                         if !params.is_empty() {
                             for v in caps.get(2).unwrap().as_str().split(',') {
